@@ -46,6 +46,26 @@ pub fn run(out: &mut Out, thorough: bool, seed: u64, _extra: &[String]) {
             }
         }
     }
+    // ---- pointwise products on LAZY operands, every modulus width: the library feeds `ntt_lazy` output (< 4q, not reduced) into
+    //      `dyadic_product_inplace` (multiply_plain); the product of an in-range congruent transform must still be the product mod q
+    for k in [2usize, 4] {
+        let n = 1usize << k;
+        for bits in (k + 2)..=61 {
+            let q = match std::panic::catch_unwind(|| hu::get_primes(2u64 << k, bits, 1)) { Ok(p) => p[0].value(), Err(_) => continue };
+            let m = Modulus::new(q);
+            let t = match hu::NTTTables::new(k, &m) { Ok(t) => t, Err(_) => continue };
+            let hi = (4 * q).min(u64::MAX);
+            let mut xl = vec_kind(&mut r, n, q, hi, 3); xl[0] = hi - 1; xl[1] = 3 * q + (q - 1); if n > 2 { xl[2] = 2 * q; }
+            let y = { let mut y = vec_kind(&mut r, n, q, q, 3); y[0] = q - 1; y };
+            out.case(&format!("dyadic_product {} {} {}", q, fl(&xl), fl(&y)), &format!("dy-lazy-inplace-b{}", bits), || { let mut w = xl.clone(); pm::dyadic_product_inplace(&mut w, &y, &m); fl(&w) });
+            out.case(&format!("dyadic_product {} {} {}", q, fl(&xl), fl(&y)), &format!("dy-lazy-b{}", bits), || { let mut w = vec![0u64; n]; pm::dyadic_product(&xl, &y, &m, &mut w); fl(&w) });
+            // the composition the evaluator uses: lazy forward transform, in-place pointwise product, inverse transform
+            let x = { let mut x = vec_kind(&mut r, n, q, q, 3); x[0] = q - 1; x };
+            out.case(&format!("ntt_conv {} {} {} {}", k, q, fl(&x), fl(&y)), &format!("conv-lazy-b{}", bits), || {
+                let (mut a, mut b) = (x.clone(), y.clone()); pm::ntt_lazy(&mut a, &t); pm::ntt(&mut b, &t);
+                pm::dyadic_product_inplace(&mut a, &b, &m); pm::intt(&mut a, &t); fl(&a) });
+        }
+    }
     // ---- tables: primes of many sizes, built twice independently; composites and non-NTT-friendly moduli refused
     for k in 1..=kmax {
         let n = 1usize << k;
